@@ -1,7 +1,7 @@
 (* C08/Properties.v — property theorems only.  Each is closed by [exact lemma],
    pinned by [Check name : statement] and followed by [Print Assumptions]. *)
 From Coq Require Import Sorting.Sorted Sorting.Permutation.
-From RM Require Import C08.Model C08.Proofs C08.IndexProofs C08.WinModel C08.WinProofs C08.Driver Gen.C08Tables C08.Tie.
+From RM Require Import C08.Model C08.Proofs C08.IndexProofs C08.WinModel C08.WinProofs C08.Driver Gen.C08Tables C08.Tie C08.EndToEnd.
 Open Scope Z_scope.
 
 (* Building never fails: the final RangeMap::try_from_iter(vec).unwrap() discards
@@ -252,6 +252,36 @@ Theorem c08_gen_win_total : forall p (l : list winrec), wf_recs l -> exists t, g
 Proof. exact g_win_table_total. Qed.
 Print Assumptions c08_gen_win_total.
 
+(* ---- end to end, in plain arithmetic: from the raw u64 (base, size) fields of ANY entry list, through the generated
+   memory_range() and the generated builder (module list, memory lists, memory-info list), in either profile:
+   the build succeeds; the table is sorted and non-overlapping; every table entry is (base, base+size-1) of the entry
+   at its (in-bounds) index; the index a lookup returns is in bounds and base <= x < base + size holds for that entry
+   without overflow (so `x - base` downstream cannot underflow); an entry that no other entry with a range intersects
+   is found at every address in it. ---- *)
+Theorem c08_end_to_end_size_based : forall mr : profile -> Z -> Z -> outcome (option range),
+  In mr [g_mr_MinidumpModule; g_mr_MinidumpMemoryBase; g_mr_MinidumpMemoryInfo] ->
+  forall p ents, u64_ents ents ->
+  exists t, g_indexed_table (mr p) ents = Ret t /\
+    StronglySorted (fun a b => snd (fst a) < fst (fst b)) t /\
+    (forall r i, In (r, i) t -> 0 <= i /\ exists b s, nth_error ents (Z.to_nat i) = Some (b, s) /\
+                                   s <> 0 /\ b + s < two64 /\ r = (b, b + s - 1)) /\
+    (forall x i, rm_get t x = Some i -> 0 <= i /\ exists b s, nth_error ents (Z.to_nat i) = Some (b, s) /\
+                                   s <> 0 /\ b + s < two64 /\ b <= x < b + s) /\
+    (forall e1 b s e2 x, ents = e1 ++ (b, s) :: e2 -> s <> 0 -> b + s < two64 -> b <= x < b + s ->
+        (forall b' s', In (b', s') (e1 ++ e2) -> s' = 0 \/ two64 <= b' + s' \/ b' + s' <= b \/ b + s <= b') ->
+        rm_get t x = Some (Z.of_nat (length e1))).
+Proof. exact size_based_end_to_end. Qed.
+Print Assumptions c08_end_to_end_size_based.
+
+(* Linux maps: entries are (first, last) addresses *)
+Theorem c08_end_to_end_maps : forall ents, u64_ents ents ->
+  exists t, g_indexed_table g_mr_MinidumpLinuxMapInfo ents = Ret t /\
+    StronglySorted (fun a b => snd (fst a) < fst (fst b)) t /\
+    (forall r i, In (r, i) t -> 0 <= i /\ exists lo hi, nth_error ents (Z.to_nat i) = Some (lo, hi) /\ lo <= hi /\ r = (lo, hi)) /\
+    (forall x i, rm_get t x = Some i -> 0 <= i /\ exists lo hi, nth_error ents (Z.to_nat i) = Some (lo, hi) /\ lo <= x <= hi).
+Proof. exact maps_end_to_end. Qed.
+Print Assumptions c08_end_to_end_maps.
+
 (* ---- non-vacuity: the hypotheses are met by concrete, non-trivial inputs ---- *)
 Example c08_nonvacuous_wf :
   wf_entries [(mk_range 18446744073709551610 6, 1); (mk_range 0 0, 2); (mk_range 5 10, 3);
@@ -302,3 +332,9 @@ Example c08_nonvacuous_indexed :
   into_rangemap_safe Z.eqb (enumerate_from 0 ranges) = [((5, 14), 0); ((20, 20), 3)] /\
   rm_get (into_rangemap_safe Z.eqb (enumerate_from 0 ranges)) 20 = Some 3.
 Proof. cbv zeta. split; [repeat constructor; cbn; discriminate|split; vm_compute; reflexivity]. Qed.
+
+Example c08_nonvacuous_end_to_end :
+  let ents := [(5, 10); (0, 0); (7, 2); (20, 1); (18446744073709551615, 1); (18446744073709551600, 15)] in
+  u64_ents ents /\
+  g_indexed_table (g_mr_MinidumpModule Debug) ents = Ret [((5, 14), 0); ((20, 20), 3); ((18446744073709551600, 18446744073709551614), 5)].
+Proof. cbv zeta. split; [repeat constructor; cbn; discriminate|vm_compute; reflexivity]. Qed.
